@@ -492,6 +492,14 @@ func runC08(tier string, seed uint64) int {
 			w.Docs = append(w.Docs, Doc{Kind: "NetworkPolicy", NS: ns, Name: "np-emptypeer", Text: "apiVersion: networking.k8s.io/v1\nkind: NetworkPolicy\nmetadata:\n  name: np-emptypeer\n  namespace: " +
 				ns + "\nspec:\n  podSelector: {}\n  policyTypes:\n  - Ingress\n  ingress:\n  - from:\n    - ipBlock:\n        cidr: 0.0.0.0/0\n    - {}\n    - namespaceSelector: {}\n"})
 		}
+		if i%15 == 14 && len(w.Pods) > 0 {
+			// an eval world without an answer: of two ingress rules one lets everybody in and the other has a peer that says
+			// nothing. The question about any pod of that namespace fails, whichever rule is written first.
+			pn := pick(r, w.Pods)
+			ns := pn[:strings.Index(pn, "/")]
+			w.Docs = append(w.Docs, Doc{Kind: "NetworkPolicy", NS: ns, Name: "np-halfvalid", Text: "apiVersion: networking.k8s.io/v1\nkind: NetworkPolicy\nmetadata:\n  name: np-halfvalid\n  namespace: " +
+				ns + "\nspec:\n  podSelector: {}\n  policyTypes:\n  - Ingress\n  ingress:\n  - {}\n  - from:\n    - {}\n"})
+		}
 		c := &c08Case{name: fmt.Sprintf("gen:%d", i), relayout: true, docs: w.Docs, docs2: editSet(r, w.Docs, &f), hasAdmin: w.HasAdmin}
 		if f.PodsOnly && len(w.Pods) >= 2 {
 			for q := 0; q < 4; q++ {
@@ -606,7 +614,15 @@ func runC08(tier string, seed uint64) int {
 			if !c.relayout || len(c.evalQ) <= 2 {
 				kMax = 4 // list/diff only: baseline and two variants
 			}
-			for k := 0; k <= kMax && o.mm == nil; k += 2 {
+			for step := 0; o.mm == nil; step++ {
+				// variants 0, 3, 4, 7, 8, ...: the baseline, then rule/peer permutations and file layouts in turn
+				k := 2 * step
+				if step%2 == 1 {
+					k++
+				}
+				if k > kMax {
+					break
+				}
 				rv := sub(seed, "C08", "variants", c.name)
 				var v *c08Variant
 				for kk := 0; kk <= k; kk++ {
